@@ -337,7 +337,12 @@ impl<'a> Marker<'a> {
 
 pub struct NetInner {
     pub self_id: PeerId,
+    /// what get_local_record sees (the record store answers from its cache as soon as a put was handled)
     pub store: RefCell<HashMap<RecordKey, Record>>,
+    /// what is_record_key_present_locally sees (the index is updated only when the disk write completed)
+    pub index: RefCell<Vec<RecordKey>>,
+    pub unindexed: RefCell<Vec<RecordKey>>,
+    pub index_lag: Cell<bool>,
     pub pending_puts: RefCell<VecDeque<Record>>,
     pub defer_puts: Cell<bool>,
     pub yield_on_queries: Cell<bool>,
@@ -357,6 +362,9 @@ impl Network {
             inner: Rc::new(NetInner {
                 self_id,
                 store: RefCell::new(HashMap::new()),
+                index: RefCell::new(vec![]),
+                unindexed: RefCell::new(vec![]),
+                index_lag: Cell::new(false),
                 pending_puts: RefCell::new(VecDeque::new()),
                 defer_puts: Cell::new(false),
                 yield_on_queries: Cell::new(false),
@@ -384,7 +392,7 @@ impl Network {
     }
     pub async fn is_record_key_present_locally(&self, key: &RecordKey) -> NResult<bool> {
         let k = key.clone();
-        Ok(self.round_trip(move |i| i.store.borrow().contains_key(&k)).await)
+        Ok(self.round_trip(move |i| i.index.borrow().contains(&k)).await)
     }
     pub async fn get_local_record(&self, key: &RecordKey) -> NResult<Option<Record>> {
         let k = key.clone();
@@ -399,12 +407,38 @@ impl Network {
         if self.inner.defer_puts.get() {
             self.inner.pending_puts.borrow_mut().push_back(record);
         } else {
-            self.inner.store.borrow_mut().insert(record.key.clone(), record);
+            self.apply(record);
+        }
+    }
+    fn apply(&self, record: Record) {
+        let k = record.key.clone();
+        self.inner.store.borrow_mut().insert(k.clone(), record);
+        if self.inner.index_lag.get() {
+            self.inner.unindexed.borrow_mut().push(k);
+        } else if !self.inner.index.borrow().contains(&k) {
+            self.inner.index.borrow_mut().push(k);
+        }
+    }
+    /// a record the node holds already (written and indexed)
+    pub fn hold(&self, record: Record) {
+        let k = record.key.clone();
+        self.inner.store.borrow_mut().insert(k.clone(), record);
+        if !self.inner.index.borrow().contains(&k) {
+            self.inner.index.borrow_mut().push(k);
+        }
+    }
+    /// the disk writes of all handled puts complete: their keys enter the index
+    pub fn complete_writes(&self) {
+        let ks: Vec<RecordKey> = self.inner.unindexed.borrow_mut().drain(..).collect();
+        for k in ks {
+            if !self.inner.index.borrow().contains(&k) {
+                self.inner.index.borrow_mut().push(k);
+            }
         }
     }
     pub fn apply_pending_put(&self, idx: usize) {
         if let Some(r) = self.inner.pending_puts.borrow_mut().remove(idx) {
-            self.inner.store.borrow_mut().insert(r.key.clone(), r);
+            self.apply(r);
         }
     }
     pub fn pending_put_count(&self) -> usize {
